@@ -312,6 +312,22 @@ def check_lenient(case, ctx):
             ctx.count("lenient_rejected:" + name)
 
 
+# ------------------------------------------------------------------------------------ valid points whose x is >= n
+def check_highx(case, ctx):
+    """x of a public key is bounded by the field prime p, not by the group order n (only secrets are)."""
+    Prv, Pub, PrvNode, PubNode = _impl()
+    pt = tuple(case["pt"])
+    sc, su = secp.ser_c(pt), secp.ser_u(pt)
+    for form, enc in (("compressed", sc), ("uncompressed", su)):
+        for attempt in (1, 2):
+            st_, q = call(Pub.parse, enc)
+            if st_ == "exc":
+                raise Violation("C09/valid/sec-parse-raised[x>=n]", "PublicKey.parse(%s SEC of a curve point with x >= n: %s) raised %r"
+                                % (form, enc.hex(), q))
+            if q.sec() != sc or q.sec(compressed=False) != su:
+                raise Violation("C09/valid/sec-reencode[x>=n]", "PublicKey.parse(%s) of a point with x >= n re-encodes differently" % form)
+
+
 # ------------------------------------------------------------------------------------ first use from several threads
 def _cold_build(it):
     from vlib.cold import enc
@@ -362,4 +378,9 @@ def clauses():
         __import__("vlib.cold", fromlist=["x"]).cold_clause(
             "C09", st.tuples(st.sampled_from(["wif", "from_wif", "sec", "parse"]), S.scalars(), st.booleans(), st.booleans()),
             _cold_build, "WIF encode / decode, SEC encode / parse"),
+        Clause("high-x-points", check_highx,
+               "curve points with n <= x < p (constructed): both SEC forms parse, twice, and re-encode to the same bytes",
+               enum=lambda tier: [{"pt": [p_[0], p_[1]]} for p_ in __import__("vlib.props.c07", fromlist=["x"]).high_x_points(8 if tier == "quick" else 32)],
+               exhaustive=True, enum_desc="8 (quick) / 32 (thorough) points with n <= x < p", nontrivial=lambda c: True,
+               shards={"quick": 4, "thorough": 8}),
     ]
